@@ -200,6 +200,7 @@ class Result:
         self.unraisable = []
         self.events = []
         self.timed_out = False
+        self.hard_exit = None      # (status, {relative path under cond-out: bytes on disk}) if the command called os._exit()
 
     def lines(self):
         return [l for l in self.out_text.splitlines() if l.strip()]
@@ -307,6 +308,15 @@ def _escape(name):
     return f
 
 
+class HardExit(BaseException):
+    """The code under test called os._exit(): the process ends on the spot - no finalizers, no joining of threads, nothing that is
+    still in a userspace buffer reaches the disk."""
+
+    def __init__(self, status):
+        super().__init__(status)
+        self.status = status
+
+
 class HarnessTimeout(BaseException):
     """The in-process command did not come back in time (a hang of the code under test)."""
 
@@ -361,6 +371,15 @@ def clear_function_caches():
         o.cache_clear()
 
 
+def _find_root(d):
+    d = os.path.abspath(d)
+    while d != os.path.dirname(d):
+        if os.path.exists(os.path.join(d, "cond_config.toml")):
+            return d
+        d = os.path.dirname(d)
+    return d
+
+
 def run_cli(argv, cwd, *, vk=None, git=None, clock=None, env=None, tracer=None, real_processes=False, timeout=None):
     """
     Run `cond <argv>` in-process with cwd.  vk: a vkmod.VK (virtual processes) or None (no process seam:
@@ -394,6 +413,22 @@ def run_cli(argv, cwd, *, vk=None, git=None, clock=None, env=None, tracer=None, 
                 (os, "fork", _escape("os.fork")),
                 (subprocess, "_fork_exec", _escape("fork_exec")),
             ]
+    def hard_exit(status=0):
+        snap = {}
+        co = os.path.join(cwd if os.path.isdir(os.path.join(cwd, "cond-out")) else _find_root(cwd), "cond-out")
+        for dp, _, fs in os.walk(co):
+            for f in fs:
+                p_ = os.path.join(dp, f)
+                if not f.endswith(".sqlite"):
+                    try:
+                        with open(p_, "rb") as fh:
+                            snap[os.path.relpath(p_, co)] = fh.read()
+                    except OSError:
+                        pass
+        res.hard_exit = (status, snap)
+        raise HardExit(status)
+
+    pairs.append((os, "_exit", hard_exit))
     if git is not None:
         pairs += git_seam(git)
     if clock is not None:
@@ -443,6 +478,8 @@ def run_cli(argv, cwd, *, vk=None, git=None, clock=None, env=None, tracer=None, 
                 res.exit = 0
             except SystemExit as ex:
                 res.exit = ex.code if isinstance(ex.code, int) else (0 if ex.code is None else 1)
+            except HardExit as ex:
+                res.exit = ex.status
             except vkmod.HarnessError:
                 raise
             except BaseException as ex:  # internal error or harness-level exception
